@@ -54,6 +54,8 @@ pub struct RefVersion {
     pub ignored: usize,
     /// Longest digit run seen (the model's domain is <= 18).
     pub max_digits: usize,
+    /// Longest digit run not counting leading zeros.
+    pub max_sig_digits: usize,
 }
 
 fn starts_with_ci(b: &[u8], pat: &[u8]) -> bool {
@@ -80,6 +82,7 @@ pub fn parse(v: &str, w: Weight) -> RefVersion {
         letters: 0,
         ignored: 0,
         max_digits: 0,
+        max_sig_digits: 0,
     };
     'outer: while i < b.len() {
         if b[i].is_ascii_digit() {
@@ -90,6 +93,7 @@ pub fn parse(v: &str, w: Weight) -> RefVersion {
                 i += 1;
             }
             out.max_digits = out.max_digits.max(i - st);
+            out.max_sig_digits = out.max_sig_digits.max(b[st..i].iter().skip_while(|c| **c == b'0').count());
             out.comps.push((n, Kind::Num));
             continue;
         }
@@ -109,6 +113,7 @@ pub fn parse(v: &str, w: Weight) -> RefVersion {
                 i += 1;
             }
             out.max_digits = out.max_digits.max(i - st);
+            out.max_sig_digits = out.max_sig_digits.max(b[st..i].iter().skip_while(|c| **c == b'0').count());
             out.revision = n;
             out.nb_count += 1;
             continue;
@@ -229,6 +234,8 @@ pub struct Both {
     pub ascii: bool,
     pub cmp: Cmp,
     pub in_domain: bool,
+    /// As `in_domain`, but leading zeros of a digit run do not count.
+    pub in_domain_padded: bool,
 }
 
 pub fn satisfies(a: &str, op: Op, b: &str) -> Both {
@@ -239,6 +246,7 @@ pub fn satisfies(a: &str, op: Op, b: &str) -> Both {
         rank: op.test(cmp.ord),
         ascii: op.test(ca.ord),
         in_domain: la.max_digits <= 18 && lb.max_digits <= 18,
+        in_domain_padded: la.max_sig_digits <= 18 && lb.max_sig_digits <= 18,
         cmp,
     }
 }
